@@ -88,6 +88,7 @@ func newDuplexHTTPCall(
 // is called.
 func (d *duplexHTTPCall) Write(data []byte) (int, error) {
 	d.ensureRequestMade()
+	verifYield("write.ctxcheck")
 	// Before we send any data, check if the context has been canceled.
 	if err := d.ctx.Err(); err != nil {
 		d.SetError(err)
@@ -95,7 +96,9 @@ func (d *duplexHTTPCall) Write(data []byte) (int, error) {
 	}
 	// It's safe to write to this side of the pipe while net/http concurrently
 	// reads from the other side.
+	verifYield("write.pipe")
 	bytesWritten, err := d.requestBodyWriter.Write(data)
+	verifYield("write.done")
 	if err != nil && errors.Is(err, io.ErrClosedPipe) {
 		// Signal that the stream is closed with the more-typical io.EOF instead of
 		// io.ErrClosedPipe. This makes it easier for protocol-specific wrappers to
@@ -112,6 +115,7 @@ func (d *duplexHTTPCall) CloseWrite() error {
 	// ensures that we've sent any headers to the server and that we have an HTTP
 	// response to read from.
 	d.ensureRequestMade()
+	verifYield("closewrite")
 	// The user calls CloseWrite to indicate that they're done sending data. It's
 	// safe to close the write side of the pipe while net/http is reading from
 	// it.
@@ -141,6 +145,7 @@ func (d *duplexHTTPCall) Read(data []byte) (int, error) {
 	// First, we wait until we've gotten the response headers and established the
 	// server-to-client side of the stream.
 	d.BlockUntilResponseReady()
+	verifYield("read.ready")
 	if err := d.getError(); err != nil {
 		// The stream is already closed or corrupted.
 		return 0, err
@@ -153,7 +158,9 @@ func (d *duplexHTTPCall) Read(data []byte) (int, error) {
 	if d.response == nil {
 		return 0, fmt.Errorf("nil response from %v", d.request.URL)
 	}
+	verifYield("read.body")
 	n, err := d.response.Body.Read(data)
+	verifYield("read.done")
 	// A body read that fails because the call's context ended must surface as
 	// canceled or deadline_exceeded, whatever layer reports it.
 	return n, wrapIfContextError(wrapIfRSTError(err))
@@ -161,6 +168,7 @@ func (d *duplexHTTPCall) Read(data []byte) (int, error) {
 
 func (d *duplexHTTPCall) CloseRead() error {
 	d.BlockUntilResponseReady()
+	verifYield("closeread")
 	if d.response == nil {
 		return nil
 	}
@@ -209,6 +217,7 @@ func (d *duplexHTTPCall) SetError(err error) {
 	// Closing the read side of the request body pipe acquires an internal lock,
 	// so we want to scope errMu's usage narrowly and avoid defer.
 	d.errMu.Unlock()
+	verifYield("seterror.closepipe")
 
 	// We've already hit an error, so we should stop writing to the request body.
 	// It's safe to call Close more than once and/or concurrently (calls after
@@ -243,7 +252,9 @@ func (d *duplexHTTPCall) makeRequest() {
 
 	// Once we send a message to the server, they send a message back and
 	// establish the receive side of the stream.
+	verifYield("request.do")
 	response, err := d.httpClient.Do(d.request)
+	verifYield("request.done")
 	if err != nil {
 		err = wrapIfContextError(err)
 		err = wrapIfLikelyH2CNotConfiguredError(d.request, err)
